@@ -502,6 +502,14 @@ func (h *Hashgraph) updateAncestorFirstDescendant(event *Event) error {
 				if err := h.Store.SetEvent(a); err != nil {
 					return err
 				}
+				// Ancestors that were inserted but not yet processed by
+				// DivideRounds have no round yet. Evaluating witness() on them
+				// would compute, and memoise, a round from incomplete round
+				// information; keep walking down instead.
+				if a.round == nil {
+					ah = a.SelfParent()
+					continue
+				}
 				// Stopping condition. We don't want to go all the way down to
 				// the bottom of the hashgraph (which could happen if the event
 				// is from a new participant). So we stop at the ancestors that
